@@ -1,5 +1,8 @@
 import GmQuic.Lemmas.SendSpec
 import GmQuic.Lemmas.BufMapEasy
+import GmQuic.Lemmas.BufMapAck
+import GmQuic.Lemmas.BufMapPick
+import GmQuic.Lemmas.BufMapLoss
 /-!
 C09 — assembly of the refinement: every transliterated `SendBuf` operation, run on a state that represents a spec
 state (`Rel`), inside the operation's domain (`DomX`), does not panic and is a legal step of the specification
@@ -24,10 +27,6 @@ def LossRefines : Prop :=
   ∀ (m : BufMap) (a b : Nat), WF m → a < b → b ≤ m.size → (∀ x, a ≤ x → x < b → m.abs x ≠ .pending) →
     ∃ m', mayLoss m a b = .ok m' ∧ WF m' ∧ m'.size = m.size ∧
       ∀ x, m'.abs x = setRange m.abs a b lostOf x
-
-def obsOf : PickRes → SendObs
-  | .none _ => .none
-  | .range a b f => .range a b f
 
 def PickRefines : Prop :=
   ∀ (m : BufMap) (s : SendSpec) (pred : Nat → Option Nat) (flow : Nat),
@@ -190,8 +189,9 @@ theorem pickUp_refines (hP : PickRefines) (b : SendBuf) (s : SendSpec) (hR : Rel
 
 /-- **Refinement, one step.**  Every public operation of the transliterated `SendBuf`, inside its domain, on a
 state representing `s`: no panic, and the answer is a legal step of the specification. -/
-theorem step_refines (hA : AckRefines) (hS : ShiftRefines) (hL : LossRefines) (hP : PickRefines)
-    (b : SendBuf) (s : SendSpec) (hR : Rel b s) (op : SendOp) (hd : DomX b op) :
+theorem step_refines (hA : AckRefines) (hS : ShiftRefines) (hP : PickRefines)
+    (b : SendBuf) (s : SendSpec) (hR : Rel b s) (op : SendOp) (hL : (∃ a e, op = .lose a e) → LossRefines)
+    (hd : DomX b op) :
     ∃ b' obs s', xstep b op = .ok (b', obs) ∧ stepOk s op obs s' ∧ Rel b' s' := by
   cases op with
   | write bs =>
@@ -211,7 +211,7 @@ theorem step_refines (hA : AckRefines) (hS : ShiftRefines) (hL : LossRefines) (h
     · rw [hR.size]; exact hd.2.1
     · intro x h1 h2; rw [hR.colour]; exact hd.2.2 x h1 h2
   | lose a e =>
-    obtain ⟨b', hb, hR'⟩ := lose_refines hL b s hR a e hd
+    obtain ⟨b', hb, hR'⟩ := lose_refines (hL ⟨a, e, rfl⟩) b s hR a e hd
     refine ⟨b', .unit, s.lose a e, by simp [xstep, hb, Except.map], ⟨⟨hd.1, ?_, ?_⟩, rfl⟩, hR'⟩
     · rw [hR.size]; exact hd.2.1
     · intro x h1 h2; rw [hR.colour]; exact hd.2.2 x h1 h2
@@ -227,16 +227,29 @@ inductive XRun : SendBuf → List (SendOp × SendObs) → SendBuf → Prop
   | snoc {b₀ tr b op obs b'} : XRun b₀ tr b → DomX b op → xstep b op = .ok (b', obs) → XRun b₀ (tr ++ [(op, obs)]) b'
 
 /-- **Refinement, all histories.**  Every run of the transliteration is a trace of the specification. -/
-theorem run_refines (hA : AckRefines) (hS : ShiftRefines) (hL : LossRefines) (hP : PickRefines)
+def HasLose (tr : List (SendOp × SendObs)) : Prop := ∃ e ∈ tr, ∃ a b, e.1 = .lose a b
+
+theorem run_refines (hA : AckRefines) (hS : ShiftRefines) (hP : PickRefines)
     (b₀ : SendBuf) (s₀ : SendSpec) (hR : Rel b₀ s₀) (tr : List (SendOp × SendObs)) (b : SendBuf)
-    (h : XRun b₀ tr b) : ∃ s, Trace.Ok s₀ tr s ∧ Rel b s := by
+    (h : XRun b₀ tr b) (hL : HasLose tr → LossRefines) : ∃ s, Trace.Ok s₀ tr s ∧ Rel b s := by
   induction h with
   | nil => exact ⟨s₀, .nil _, hR⟩
-  | snoc _ hd hx ih =>
-    obtain ⟨s, ht, hRs⟩ := ih
-    obtain ⟨b'', obs', s', hx', hok, hR'⟩ := step_refines hA hS hL hP _ s hRs _ hd
+  | @snoc tr0 b1 op obs b2 _ hd hx ih =>
+    obtain ⟨s, ht, hRs⟩ := ih (fun ⟨e, he, q⟩ => hL ⟨e, by simp [he], q⟩)
+    obtain ⟨b'', obs', s', hx', hok, hR'⟩ := step_refines hA hS hP _ s hRs _
+      (fun ⟨a, e, q⟩ => hL ⟨(op, obs), by simp, a, e, q⟩) hd
     rw [hx] at hx'
     cases hx'
     exact ⟨s', .snoc ht hok, hR'⟩
+
+/-- `ack_rcvd` refines the spec (`Lemmas/BufMapAck.lean`) -/
+theorem ackRefines : AckRefines := fun m a b hwf hab hb hnp => ackRcvd_refines m a b hwf hab hb hnp
+
+/-- `shift` refines the spec (`Lemmas/BufMapAck.lean`) -/
+theorem shiftRefines : ShiftRefines := fun m hwf => shift_refines m hwf
+
+/-- `pick` stays inside `pickOk` (`Lemmas/BufMapPick.lean`) -/
+theorem pickRefines : PickRefines :=
+  fun m s pred flow hwf hsize hcol hwin h62 hp => pick_refines m s pred flow hwf hsize hcol hwin h62 hp
 
 end GmQuic.BufMap
